@@ -169,7 +169,7 @@ func run(c *h.Ctx, cs Case) {
 				if err == nil {
 					other := keys.Get(s.d.Issuer().Alg, (s.d.Issuer().Idx+1)%4)
 					if s.d.Issuer().Alg == keys.RSA {
-						other = keys.Get(keys.RSA, (s.d.Issuer().Idx+1)%keys.RSAPoolSize())
+						other = keys.Get(keys.RSA, (s.d.Issuer().Idx+1)%keys.RSAFast)
 					}
 					if bad, err := env.Seal(other.Priv, e.SigPayload); err == nil && !bytes.Equal(bad, data) {
 						data, id, mustFail = bad, ctr.RefCID(bad), true
